@@ -14,8 +14,7 @@ from ..shims import import_dclab
 
 PID = "C11"
 AUTO = {("experiment", "event count"), ("setup", "software version"),
-        ("fluorescence", "samples per event"),
-        ("fluorescence", "channel count"), ("imaging", "roi size x"),
+        ("fluorescence", "samples per event"), ("imaging", "roi size x"),
         ("imaging", "roi size y")}
 
 EXP = {
@@ -231,6 +230,9 @@ def _pipe_case(job):
         with RTDCWriter(path, mode="reset") as hw:
             hw.store_metadata(meta)
             hw.store_feature("deform", gen.scalar("deform", range(1, 6)))
+            # (a fluorescence feature: the channel count is completed by the
+            # writer only when it is missing - a given value survives)
+            hw.store_feature("fl1_max", gen.scalar("fl1_max", range(1, 6)))
 
         def compare(cfg, where, skip_user=False):
             for sec, kv in meta.items():
@@ -315,9 +317,10 @@ def main(tier, seed, replay=None):
                "metadata key (+ user entries); after every step every value "
                "is compared. non-trivial = accepted value or pipeline of "
                "length >= 2.")
-    ev.assumptions = ["keys auto-completed by the writer (event count, "
-                      "software version, roi size, samples per event, "
-                      "channel count) are excluded from storage pipelines"]
+    ev.assumptions = ["keys re-derived by the writer (event count, "
+                      "software version, roi size, samples per event) are "
+                      "excluded from storage pipelines; the channel count "
+                      "is only completed when missing and must survive"]
     # the spec's type classes must cover the code's converter table
     used = set()
     for sec in ("experiment", "fluorescence", "imaging", "online_contour",
